@@ -143,6 +143,13 @@ func init() {
 	}
 	allAbvs = append(allAbvs, "", "ZZ", "A V", "AV ", " AV", "M", "MA:", "AVX", "CVSS", "é")
 	allVals = append(allVals, "", " ", "NN", "N ", " N", "ND ", "Q", "0", "Né", "N/", "CLEAR", "clear", "Cle", "Reds")
+	// long names of the values in the specification texts and calculators: the most
+	// plausible strings for a widened value list to accept
+	allVals = append(allVals, "HIGH", "LOW", "MEDIUM", "NONE", "CRITICAL", "High", "Low", "Medium", "None", "NETWORK", "ADJACENT", "ADJACENT_NETWORK", "LOCAL", "PHYSICAL",
+		"REQUIRED", "CHANGED", "UNCHANGED", "NOT_DEFINED", "NotDefined", "PROOF_OF_CONCEPT", "FUNCTIONAL", "UNPROVEN", "UNREPORTED", "OFFICIAL_FIX", "TEMPORARY_FIX",
+		"WORKAROUND", "UNAVAILABLE", "UNKNOWN", "REASONABLE", "UNCONFIRMED", "UNCORROBORATED", "CONFIRMED", "ATTACKED", "SAFETY", "Safety", "PRESENT", "NEGLIGIBLE",
+		"DIFFUSE", "CONCENTRATED", "AUTOMATIC", "USER", "IRRECOVERABLE", "PARTIAL", "COMPLETE", "SINGLE", "MULTIPLE", "PASSIVE", "ACTIVE", "YES", "NO", "WHITE", "White",
+		"LOW_MEDIUM", "MEDIUM_HIGH")
 }
 
 // AllAbvs / AllVals expose the pools (C09).
